@@ -39,17 +39,26 @@ def _execute(record, root):
     chain = []
     for k, e in enumerate(out):
         c = e["op"]["cfg"]
-        tag = f"solve {k} batch={names} {record['method']} conv={c['conv']} sp2={c['sp2']} eps={c['eps']} uhf={c['uhf']} start={e['start']}({e.get('from')})"
+        tag = f"solve {k} batch={names} {record['method']} conv={c['conv']} sp2={c['sp2']} eps={c['eps']} uhf={c['uhf']} backward={c.get('backward', 0)} start={e['start']}({e.get('from')})"
         stats["solves_seen"] = stats.get("solves_seen", 0) + 1
         if e.get("exc"):
             stats["probes"]["solves_that_raised"] = stats["probes"].get("solves_that_raised", 0) + 1
+            # every generated configuration is a documented, selectable way of solving a molecule inside the statement's
+            # domain: a path that raises does not "yield the same energy"
+            if e.get("from") == "fault:asym":
+                # an asymmetric matrix is not a density any caller can hold: under this injected fault a solve may fail
+                # loudly (the Krylov solver does, with NaN -> ValueError); it may never return wrong data, which the
+                # comparisons below keep checking for every solve that does return
+                stats["probes"]["loud_failure_from_asymmetric_start"] = stats["probes"].get("loud_failure_from_asymmetric_start", 0) + 1
+            else:
+                failures.append(core.fail("path-fails", f"{tag}: this solver path raised {e['exc'][:300]} for a batch that the reference path solves"))
         if e.get("exc") or e.get("nonterminating") or not e.get("finite") or "ref" not in e or "exc" in e["ref"]:
             continue
         tau = scfsim.tau_of(c, sp2_weight=3.0)  # the energy error of a purified density is ~30 x the SP2 trace tolerance
         ref = e["ref"]
         errsE = []
         for m in range(len(names)):
-            if e["notconverged"][m] or ref["notconverged"][m] or ref["gap"][m] < 2.0:
+            if e["notconverged"][m] or ref["notconverged"][m] or ref["gap"][m] < 2.0 or not scfsim.thermally_cold(c, ref["gap"][m]):
                 errsE.append(None)
                 continue
             if c["uhf"] and e.get("spin") and e["spin"][m] > 1e-2 and e["Etot"][m] < ref["Etot"][m] - (tol["K_E"] * tau + tol["floor"]):
@@ -69,6 +78,12 @@ def _execute(record, root):
                 mx[name + "_over_tau"] = max(mx.get(name + "_over_tau", 0.0), val / tau)
                 if val > tol[K] * tau + tol["floor"]:
                     failures.append(core.fail(f"path-dependent/{name}", f"{tag}: molecule {m} ({names[m]}): {name} differ from the reference solve (cold, diagonalisation, Pulay, eps 1e-11) of the same geometry by {val:.3e} (bound {tol[K] * tau:.3e}, tau={tau:.1e}); both report converged"))
+        if c["conv"][0] == 3:
+            stats["probes"]["krylov_solves"] = stats["probes"].get("krylov_solves", 0) + 1
+        if c.get("backward"):
+            stats["probes"][f"backward_{c['backward']}_solves"] = stats["probes"].get(f"backward_{c['backward']}_solves", 0) + 1
+        if record["method"] == "PM6":
+            stats["probes"]["pm6_d_solves"] = stats["probes"].get("pm6_d_solves", 0) + 1
         if c["uhf"]:
             stats["probes"]["uhf_singlet_solves"] = stats["probes"].get("uhf_singlet_solves", 0) + 1
         if c["sp2"][0]:
@@ -87,7 +102,7 @@ def _execute(record, root):
                 allowed = max(e0[m], tol["K_E"] * t1 + tol["floor"])
                 if e1[m] > allowed:
                     failures.append(core.fail("not-monotone", f"{tag1}: molecule {m}: tightening the threshold (tau {t0:.1e} -> {t1:.1e}) moved the energy AWAY from the limit ({e0[m]:.3e} -> {e1[m]:.3e} eV)"))
-    sig = [names, record["method"], [(e["op"]["cfg"]["conv"], e["op"]["cfg"]["sp2"], e["op"]["cfg"]["eps"], e["op"]["cfg"]["uhf"], e["start"], e.get("from")) for e in out]]
+    sig = [names, record["method"], [(e["op"]["cfg"]["conv"], e["op"]["cfg"]["sp2"], e["op"]["cfg"]["eps"], e["op"]["cfg"]["uhf"], e["op"]["cfg"].get("backward", 0), e["start"], e.get("from")) for e in out]]
     sample = {"session": record, "solves": [{"notconverged": e.get("notconverged"), "start": e["start"], "from": e.get("from"), "Etot": e.get("Etot")} for e in out]}
     dig = core.digest([[e.get("notconverged"), [round(v, 9) for v in (e.get("Etot") or [])]] for e in out])
     return core.Result.make(record, failures, stats, sig=sig, nontrivial=len(out) >= 2, sample=sample, digest_=dig)
